@@ -3617,7 +3617,10 @@ func (vm *Thread) opSelect() value.Value {
 		}
 	}
 
-	chosenCaseIndex, val, channelOpen := reflect.Select(reflectSelectCases)
+	chosenCaseIndex, val, channelOpen, selectErr := selectRecoverClosed(reflectSelectCases)
+	if !selectErr.IsUndefined() {
+		return selectErr
+	}
 	if chosenCaseIndex == 0 {
 		return value.ExecutionAbortedError.ToValue()
 	}
@@ -3671,6 +3674,19 @@ func (vm *Thread) opSelect() value.Value {
 	}
 
 	return value.Undefined
+}
+
+// reflect.Select panics when the chosen send case writes to a closed channel,
+// report it as the same error a plain push to a closed channel gives.
+func selectRecoverClosed(cases []reflect.SelectCase) (chosen int, recv reflect.Value, recvOK bool, err value.Value) {
+	defer func() {
+		if r := recover(); r != nil {
+			err = value.ChannelClosedPushError.ToValue()
+		}
+	}()
+
+	chosen, recv, recvOK = reflect.Select(cases)
+	return chosen, recv, recvOK, value.Undefined
 }
 
 func (vm *Thread) opExecDefer() value.Value {
